@@ -115,6 +115,9 @@ func (v validateIdentitySet) Validate(value interface{}) error {
 		return nil
 	}
 	for _, row := range ids {
+		if row == nil {
+			continue
+		}
 		if v.matches(row) {
 			return nil
 		}
